@@ -312,7 +312,7 @@ def warning_conditions(prog, an, rep):
     # the "once on the feature branch" filter records the commit
     adds = [n for n in c.nodes.values() if n.kind == 'stmt' and
             src(n.ast) == '%s.add(%s)' % (feat, rev)]
-    rep.check(len(adds) == 1, R, f.qname + ': the feature set is extended '
+    rep.check(len(adds) >= 1, R, f.qname + ': the feature set is extended '
               'by earlier versions of the source branch', f.where(),
               '%d statements add the commit to the feature set' % len(adds))
 
